@@ -297,6 +297,16 @@ def _get_schema_or_none(
 
 
 def _default(f_type: Type, f_value: Any, config_cls: Type[BaseConfig]) -> Any:
+    plain_dialect = config_cls.dialect
+    if plain_dialect is not None:
+        # options of Config.dialect outrank the ones overridden below
+        class PlainDialect(plain_dialect):  # type: ignore
+            omit_none = False
+            omit_default = False
+            serialize_by_alias = False
+
+        plain_dialect = PlainDialect
+
     @dataclass
     class CC(DataClassJSONMixin):
         x: f_type = f_value  # type: ignore
@@ -305,6 +315,7 @@ def _default(f_type: Type, f_value: Any, config_cls: Type[BaseConfig]) -> Any:
             omit_none = False
             omit_default = False
             serialize_by_alias = False
+            dialect = plain_dialect
 
     return CC(f_value).to_dict()["x"]
 
